@@ -316,13 +316,13 @@ Proof.
     destruct (nsigned T) eqn:SG; cbn [fits256] in *.
     + pstep. unfold enc. unfold w_slt, w_sgt. rewrite !ts_wrap by assumption.
       rewrite !w_iszero_b2z, w_and_b2z, b2z_eq0. rewrite Z.gtb_ltb.
-      destruct (Z.ltb_spec x lo), (Z.ltb_spec hi x); cbn [negb andb]; pstep; rewrite ?EXP;
+      destruct (Z.ltb_spec x lo), (Z.ltb_spec hi x); cbn [negb andb]; pstep; unfold enc; rewrite ?EXP;
         first [rewrite chk_rev_pow; [reflexivity | intros F; apply BB in F; lia]
               | rewrite chk_val_pow; [reflexivity | apply BB; lia]].
     + unfold uword in *. pstep. unfold enc. unfold w_gt. rewrite !(wrap_small x), (wrap_small hi) by lia.
       rewrite w_iszero_b2z, b2z_eq0, negb_involutive, Z.gtb_ltb.
       rewrite (L0 eq_refl) in *.
-      destruct (Z.ltb_spec hi x); pstep;
+      destruct (Z.ltb_spec hi x); pstep; unfold enc;
         first [rewrite chk_rev_pow; [reflexivity | intros F; apply BB in F; lia]
               | rewrite chk_val_pow; [|apply BB; lia]; cbn [enc_out]; unfold enc; f_equal;
                 rewrite <- EXP; rewrite (wrap_small x) by lia; reflexivity].
